@@ -85,6 +85,9 @@ func specs() map[string]propSpec {
 	if v := os.Getenv("VH_P5"); v != "" { // diagnosis only
 		full.P5 = strings.Split(v, ",")
 	}
+	if v := os.Getenv("VH_KINDS"); v != "" { // diagnosis only
+		full.Kinds = strings.Split(v, ",")
+	}
 	if os.Getenv("VH_NOCOMP") != "" { // diagnosis only
 		full.MultiComp, full.SelfLoops = false, false
 	}
